@@ -11,8 +11,9 @@ import tractcorr
 
 THRU = [' - ', '-', ' – ', '—', ' through ', ' thru ', ' to ', '- ', ' -', ' Through ', ' THROUGH ', ' Thru ', ' THRU ', ' TO ']
 AND = [' and ', ' & ', ', ', ', and ', ',', ' and, ', ' AND ', ' And ']
-SEC_SING = ['Section', 'Sec', 'Sec.', 'Sect.', 'section', 'SECTION', '§']
-SEC_PLUR = ['Sections', 'Secs', 'Secs.', 'Sects.', 'sections']
+# every spelling of the keyword the library's own pattern lists, the misspellings included ('Secton' and 'Seciton' contain the range word 'to')
+SEC_SING = ['Section', 'Sec', 'Sec.', 'Sect.', 'section', 'SECTION', '§', 'Sect', 'Secton', 'Seciton', 'Secion', 'Sectn', 'Secn', 'SECTON']
+SEC_PLUR = ['Sections', 'Secs', 'Secs.', 'Sects.', 'sections', 'Sectons', 'Secitons', 'Secions']
 LOT_SING = ['Lot', 'lot', 'LOT']
 LOT_PLUR = ['Lots', 'lots', 'LOTS']
 
